@@ -40,7 +40,7 @@ func c13Token(q *UpQuery) string {
 }
 
 func TestVfC13Framing(t *testing.T) {
-	st := vfkit.Stats("TestVfC13Framing", "k in 1..60 pipelined queries of 17 B..4 KiB (one near-64 KiB class) on tcp / gnet / tls listeners, byte stream cut by a drawn segmentation plan (inside the 2-octet prefix, inside bodies, several frames per segment, 1-octet segments, optional 1-3 ms pauses), per-query upstream delays (concurrent, out-of-order completion), responses of 17-60 KiB for a quarter of the queries of small batches (several of them completing together; one in four of those fills a frame up to 0-10 octets before the proxy adds the OPT of an EDNS client), max_concurrent_queries in {default,1,2,5} with gated upstream replies, in one case of three preceded by 1-6 connections that die in the middle of a frame; oracle: return stream is exactly k frames whose prefixes equal their body lengths, each body decodes, response IDs = query IDs as multisets, each answer belongs to its own query, exactly k-max REFUSED when the limit is exceeded; non-trivial = a cut inside a prefix or body with k >= 2, or the limit exceeded")
+	st := vfkit.Stats("TestVfC13Framing", "k in 1..60 pipelined queries of 17 B..4 KiB (one near-64 KiB class, one of 2^8..2^14 octets +-2) on tcp / gnet / tls listeners, byte stream cut by a drawn segmentation plan (inside the 2-octet prefix, inside bodies, several frames per segment, 1-octet segments, optional 1-3 ms pauses), per-query upstream delays (concurrent, out-of-order completion), responses of 17-60 KiB for a quarter of the queries of small batches (several of them completing together; one in four of those fills a frame up to 0-10 octets before the proxy adds the OPT of an EDNS client), max_concurrent_queries in {default,1,2,5} with gated upstream replies, in one case of three preceded by 1-6 connections that die in the middle of a frame; oracle: return stream is exactly k frames whose prefixes equal their body lengths, each body decodes, response IDs = query IDs as multisets, each answer belongs to its own query, exactly k-max REFUSED when the limit is exceeded; non-trivial = a cut inside a prefix or body with k >= 2, or the limit exceeded")
 	defer vfkit.Flush()
 	env := &c13Env{proxies: map[int]*Proxy{}, ips: map[int]string{}}
 	block := NextIPBlock()
@@ -113,7 +113,7 @@ func TestVfC13Framing(t *testing.T) {
 			wire []byte
 		}
 		qs := make([]qinfo, k)
-		bigResponses, ceiling := 0, 0
+		bigResponses, ceiling, edgeSized := 0, 0, 0
 		var stream []byte
 		var bounds []int // frame start offsets
 		for i := range qs {
@@ -121,7 +121,15 @@ func TestVfC13Framing(t *testing.T) {
 			name := vfkit.Name{[]byte(tok), []byte("c13"), []byte("test")}
 			m := &vfkit.Msg{ID: uint16(caseNo*64 + i), Bits: vfkit.BitRD, Q: []vfkit.Question{{Name: name, Type: 1, Class: 1}}}
 			// size classes via padding records in the additional section (ignored by the proxy)
-			switch rapid.IntRange(0, 9).Draw(t, "size") {
+			switch rapid.IntRange(0, 10).Draw(t, "size") {
+			case 10:
+				// a query whose wire length is a power of two, or one or two octets next to it (the sizes of read buffers)
+				target := 1<<rapid.IntRange(8, 14).Draw(t, "log2") + rapid.IntRange(-2, 2).Draw(t, "offBy")
+				base := len(EncodeMsg(m)) + 11 // the padding record: root owner, type, class, TTL, RDLENGTH
+				if pad := target - base; pad >= 0 {
+					m.Ar = append(m.Ar, vfkit.RR{Type: 65280, Class: 1, RData: []vfkit.RDPart{{Raw: bytes.Repeat([]byte{6}, pad)}}})
+					edgeSized++
+				}
 			case 0, 1, 2, 3, 4:
 			case 5, 6:
 				m.Ar = append(m.Ar, vfkit.RR{Type: 65280, Class: 1, RData: []vfkit.RDPart{{Raw: bytes.Repeat([]byte{7}, rapid.IntRange(1, 300).Draw(t, "pad"))}}})
@@ -350,6 +358,9 @@ func TestVfC13Framing(t *testing.T) {
 		}
 		if ceiling > 0 {
 			classes = append(classes, "response-at-the-65535-ceiling")
+		}
+		if edgeSized > 0 {
+			classes = append(classes, "query-length-next-to-a-power-of-two")
 		}
 		if bigResponses >= 2 {
 			classes = append(classes, "concurrent-big-responses")
